@@ -54,8 +54,8 @@ fn main() {
          mask (installed through the API, so the undo stack is not empty at the start), caret, current layer, mirror mode. Op = enum over the public editing entry points of EditState \
          (73 kinds incl. nested atomic groups opened/closed by BeginAtomic/EndAtomic markers); layer arguments are mapped monotonically onto the layers existing at that moment (raise: \
          all but the top one, lower / merge down: all but the bottom one) plus out-of-range boundary values; positions and sizes in range and at the boundary (-1, 0, size, size+1). \
-         exhaustive_short: every history of length <= 2 (quick) over a reduced alphabet of 94 concrete operations on 2 fixed documents, thorough adds every history of length 3 over \
-         the same alphabet without the two flips (92 operations); histories / bulk / flip_histories: random histories of length 1..=40 (mean 7; flip_histories 1..=6 with flip_x/flip_y, \
+         exhaustive_short: every history of length <= 2 (quick) over a reduced alphabet of 93 concrete operations on 2 fixed documents, thorough adds every history of length 3 over \
+         the same alphabet without the two flips (91 operations); histories / bulk / flip_histories: random histories of length 1..=40 (mean 7; flip_histories 1..=6 with flip_x/flip_y, \
          which are excluded elsewhere because each call costs 25-90 ms). A history ends before the first operation that returns Err or panics (it is re-run on a fresh editor without \
          that operation; counted in the classes ended_err|Kind / ended_panic|Kind). Oracle on the remaining operations: undo exactly undo_stack_len() growth steps -> observational \
          snapshot equals the initial one; redo them -> equals the post-history one; then visit generated operation boundaries by undo/redo steps and compare with the snapshot recorded \
